@@ -666,6 +666,39 @@ namespace bloch::runtime {
             m_pendingDestructorError = nullptr;
             std::rethrow_exception(err);
         }
+        // The run is over: objects that are still alive (held by a static field, by main's
+        // result, or garbage the collector leaves alone) end with it, and so do static fields.
+        // Their @tracked qubits contribute their outcome now; the objects are released when
+        // the evaluator goes, after the counts have been read.
+        {
+            std::vector<std::shared_ptr<Object>> alive;
+            {
+                std::lock_guard<std::mutex> lock(m_heapMutex);
+                for (auto& w : m_heap)
+                    if (auto obj = w.lock())
+                        alive.push_back(std::move(obj));
+            }
+            for (auto& obj : alive)
+                if (!obj->destroyed)
+                    recordTrackedFields(obj.get());
+            std::vector<std::string> classNames;
+            for (auto& kv : m_classTable) classNames.push_back(kv.first);
+            std::sort(classNames.begin(), classNames.end());
+            for (const auto& className : classNames) {
+                RuntimeClass* cls = m_classTable[className].get();
+                if (!cls)
+                    continue;
+                for (size_t i = 0; i < cls->staticFields.size() && i < cls->staticStorage.size();
+                     ++i) {
+                    const auto& f = cls->staticFields[i];
+                    const auto& v = cls->staticStorage[i];
+                    if (f.isTracked &&
+                        (v.type == Value::Type::Qubit || v.type == Value::Type::QubitArray))
+                        recordTrackedValue(
+                            (f.declaredIn.empty() ? cls->name : f.declaredIn) + "." + f.name, v);
+                }
+            }
+        }
         // Ensure warnings appear before any normal echo output
         if (m_warnOnExit)
             warnUnmeasured();
